@@ -162,7 +162,7 @@ Fixpoint uncollide_args (G : pe) (n : nat) (os as_ : list src) : option (list sr
   | _, _ => None
   end.
 
-(* ChooseOp.insert_operations (after fix 29d845f): an operation that is not yet among the alternatives — same
+(* ChooseOp.insert_operations (after fix 61ae0b2): an operation that is not yet among the alternatives — same
    name AND same attributes/properties (phs.same_operation) — is appended as a clone *)
 Fixpoint insert_ops (cur new : list opk) : list opk :=
   match new with
